@@ -40,7 +40,7 @@ CHUNK = 400
 NON_ASCII_PROBES = (("cond", "[1P\u0661..2]"), ("cond", "[1P1..2\u0663]"), ("cond", "[\u0661]"),
                     ("resolver", "\u212a[1]"), ("resolver", "\u212aann[1]"), ("resolver", "M[1]\u212a"),
                     ("resolver", "\u017f[1]"), ("resolver", "Mu\u017fs[1]"))
-REPORT_NON_ASCII_AS_VIOLATION = False
+REPORT_NON_ASCII_AS_VIOLATION = True
 
 
 # ------------------------------------------------------------------------------------------------ running real code
